@@ -79,6 +79,112 @@ def run(chk, tier):
             else:
                 chk.bad("R08.2", "caller|%s|%s" % (lib.short(ctor), c),
                         "%s now raises an absent-class error through %s: has()/coalesce() would swallow that failure" % (c, lib.short(ctor)), "")
+    # R08.4 decision tables by symbolic execution: coalesce over two arguments, has over one
+    chk.rule("R08.4", "coalesce evaluates its arguments left to right and stops at the first that is neither null nor absent; every argument is classified the same way; "
+                      "nothing qualifies -> null; has(e): Ok -> true, absent -> false, other failure propagates (decision tables by symbolic execution)")
+    import symex, semtables, itertools
+
+    class MacroPolicy(semtables.LogicPolicy):
+        max_paths = 20000
+        loop_limit = 8
+
+        def inline(self, path, body):
+            return path.startswith("rscel::context::default_macros::") or "::{closure" in path
+
+        def stub(self, interp, st, path, c, args, t, caller):
+            if path.endswith("Interpreter::<'a>::run_raw"):
+                n = sum(1 for e in st.trace if e[0] == "run")
+                st.event("run", n, symex.render(args[1]), symex.render(args[0]), symex.render(args[2]) if len(args) > 2 else "")
+                return [(st, symex.U("r%d" % n, "std::result::Result<rscel::types::cel_value::CelValue, rscel::types::cel_error::CelError>"))]
+            return None
+
+    def outcome_class(st, n):
+        """class of the n-th evaluation on this path: 'val' | 'null' | 'absent' | 'fail' | None (not constrained)"""
+        res = None
+        for c in st.cond:
+            if c[0] not in ("variant", "variant-not"):
+                continue
+            if c[3] == "r%d" % n and c[0] == "variant":
+                res = "ok?" if c[2] == "Ok" else "err?"
+            elif c[3] == "r%d.Ok.0" % n:
+                res = "null" if (c[0] == "variant" and c[2] == "Null") else ("val" if c[0] == "variant-not" and tuple(c[2]) == ("Null",) else "val?")
+            elif c[3] == "r%d.Err.0" % n:
+                if c[0] == "variant" and c[2] in ("Binding", "Attribute"):
+                    res = "absent"
+                elif c[0] == "variant-not" and set(c[2]) == {"Binding", "Attribute"}:
+                    res = "fail"
+                else:
+                    res = "err-partition?%s" % (c[2],)
+        return res
+
+    cb = F.body("rscel::context::default_macros::coalesce::coalesce_impl")
+    for nargs in (0, 1, 2, 3):
+        it = symex.Interp(F, MacroPolicy())
+        try:
+            outs = it.run(cb, [symex.U("ctx", "&Interpreter"), symex.U("this", "CelValue"), ("seq", tuple(symex.U("b%d" % i) for i in range(nargs)))])
+        except symex.TooManyPaths:
+            chk.bad("R08.4", "coalesce|%d args" % nargs, "symbolic execution of coalesce_impl did not finish", cb.file)
+            continue
+        got = {}
+        for st, r in outs:
+            runs = [e for e in st.trace if e[0] == "run"]
+            classes = tuple(outcome_class(st, i) for i in range(len(runs)))
+            order = [e[2] for e in runs]
+            recv = set(e[3] for e in runs)
+            got[classes] = (order, symex.render(r), recv, set(e[4] for e in runs))
+        # expected decision list
+        want = {}
+        def rec(prefix):
+            k = len(prefix)
+            if k == nargs:
+                want[tuple(prefix)] = "CelValue::from_null()"
+                return
+            for cls in ("val", "null", "absent", "fail"):
+                if cls == "val":
+                    want[tuple(prefix + [cls])] = "r%d.Ok.0" % k
+                elif cls == "fail":
+                    want[tuple(prefix + [cls])] = "CelValue::from_err(r%d.Err.0)" % k
+                else:
+                    rec(prefix + [cls])
+        rec([])
+        okc = set(got) == set(want)
+        detail = []
+        for cl, res in want.items():
+            g = got.get(cl)
+            if g is None:
+                okc = False
+                detail.append("missing case %s" % (cl,))
+                continue
+            order, rr, recv, flags = g
+            if rr != res or order != ["b%d" % i for i in range(len(cl))] or recv - {"ctx"} or flags - {"1"}:
+                okc = False
+                detail.append("%s -> %s after evaluating %s (expected %s)" % (cl, rr, order, res))
+        for cl in set(got) - set(want):
+            detail.append("unexpected case %s -> %s" % (cl, got[cl][1]))
+        if okc:
+            chk.ok("R08.4", "coalesce|%d args" % nargs, "%d decision paths" % len(got))
+        else:
+            chk.bad("R08.4", "coalesce|%d args" % nargs, "coalesce(%s) does not follow the decision list (first argument that is neither null nor absent; other failures propagate; left to right; nothing after the chosen one; null when nothing qualifies): %s" % (", ".join("e%d" % i for i in range(nargs)), "; ".join(detail[:4])), cb.file)
+    hb = F.body("rscel::context::default_macros::has::has_impl")
+    it = symex.Interp(F, MacroPolicy())
+    outs = it.run(hb, [symex.U("ctx", "&Interpreter"), symex.U("this", "CelValue"), ("seq", (symex.U("b0"),))])
+    goth = {}
+    for st, r in outs:
+        runs = [e for e in st.trace if e[0] == "run"]
+        cl = None
+        for c in st.cond:
+            if c[0] == "variant" and c[3] == "r0":
+                cl = "ok" if c[2] == "Ok" else "err?"
+            if c[3] == "r0.Err.0":
+                cl = "absent" if (c[0] == "variant" and c[2] in ("Binding", "Attribute")) else ("fail" if c[0] == "variant-not" and set(c[2]) == {"Binding", "Attribute"} else "err?%s" % (c[2],))
+            if c[3] == "r0.Ok.0":
+                cl = "ok-inspected:%s" % (c[2],)
+        goth[cl] = (symex.render(r), [e[2] for e in runs], set(e[3] for e in runs))
+    wanth = {"ok": "CelValue::true_()", "absent": "CelValue::false_()", "fail": "CelValue::from_err(r0.Err.0)"}
+    if set(goth) == set(wanth) and all(goth[k][0] == v and goth[k][1] == ["b0"] and goth[k][2] == {"ctx"} for k, v in wanth.items()):
+        chk.ok("R08.4", "has|decision table", sorted((k, v[0]) for k, v in goth.items()))
+    else:
+        chk.bad("R08.4", "has|decision table", "has(e) must be true whenever e evaluates (whatever the value, null included), false exactly for an unbound variable / absent field, and propagate every other failure; found %s" % sorted((str(k), v[0]) for k, v in goth.items()), hb.file)
     # R08.3
     comp = F.registries["rscel::context::default_macros::COMPILE_MACROS"]
     names = {r["name"] for r in comp["rows"]}
